@@ -33,6 +33,7 @@ EXPLANATION = (
     "enable (constant propagation over the complete caller set) are pruned. Not decided: insensitivity to inserted "
     "non-reversal samples (depends on values and on the kept tail).")
 EXPLANATION += (' R-C03-4: the carried sample tail is an unfiltered suffix of the analysed samples cut at the last turning point (shared with R-C01-2: its length is the position offset of the next chunk), and no detector re-orders or selects the incoming samples by index label (sort_index, sort_values, reindex, .loc).')
+EXPLANATION += (' R-C03-5 (shared with R-C02-8): reversal tests use the signs of the first differences; a product of two raw differences compared with zero underflows for differences below about 1e-162 (type DD of the typing pass; GG = product of two np.sign values is exact). Sign tests that occur as a mirror-complete boolean combination are accepted (evaluated over all sign patterns and their mirror images).')
 ASSUMPTIONS = [
     "numpy element-wise arithmetic on floats transforms like real arithmetic under x -> a*x+b, a>0 and x -> -x",
     "slicing a pandas Series with integer slice bounds is positional; a scalar integer subscript is label based",
@@ -96,6 +97,8 @@ class Typer:
             if isinstance(e.op, ast.Mult):
                 if l == "D" and r == "D":
                     return "DD"
+                if l == "G" and r == "G":
+                    return "GG"             # product of two signs: -1, 0, +1 exactly
                 if l in ("I", "C") and r in ("I", "C"):
                     return "I"
                 return None
@@ -124,6 +127,8 @@ class Typer:
                 return {"D": "A", "S": "AS", "A": "A", "AS": "AS", "I": "I", "V": "V"}.get(args[0])
             if fn in ("np.diff", "numpy.diff") and args:
                 return {"S": "D", "I": "I"}.get(args[0])
+            if fn in ("np.sign", "numpy.sign") and len(args) == 1 and args[0] == "D":
+                return "G"                  # sign of a difference: antisymmetric under negation, invariant under a > 0, exact
             if fn in ("np.where", "np.nonzero", "np.flatnonzero", "np.argmax", "np.argmin", "len", "np.arange",
                       "np.zeros_like", "np.logical_or", "np.logical_and", "np.logical_not", "pd.isna", "np.isnan",
                       "np.empty", "np.zeros", "np.cumsum", "np.searchsorted", "range"):
@@ -163,13 +168,13 @@ class Typer:
                 self.env[s.target.id] = ty
 
 
-FULL_OK = {("A", "A"), ("DD", "Z"), ("I", "I"), ("I", "Z"), ("Z", "I"), ("Z", "DD"), ("I", "C"), ("C", "I")}
+FULL_OK = {("A", "A"), ("DD", "Z"), ("I", "I"), ("I", "Z"), ("Z", "I"), ("Z", "DD"), ("I", "C"), ("C", "I"), ("GG", "Z"), ("Z", "GG")}
 NEG_EXTRA = {("AS", "AS")}
 
 
 TOLERANCE_FUNCS = ("np.isclose", "np.allclose", "numpy.isclose", "math.isclose", "np.round", "np.around", "round", "np.rint",
                    "np.floor", "np.ceil", "np.trunc", "int", "np.fix", "np.sign")
-SAMPLE_TYPES = ("S", "D", "A", "AS", "DD", "V")
+SAMPLE_TYPES = ("S", "D", "A", "AS", "DD", "V")       # (G, GG - signs - are exact and scale free: not listed)
 
 
 def classify(l, r, op, group):
@@ -178,8 +183,12 @@ def classify(l, r, op, group):
         return "variant"
     if pair in FULL_OK:
         return "invariant"
-    if pair in (("D", "Z"), ("Z", "D")):
+    if pair in (("D", "Z"), ("Z", "D"), ("G", "Z"), ("Z", "G")):
         return "invariant" if isinstance(op, (ast.Eq, ast.NotEq)) else "antisymmetric"
+    if pair in (("G", "G"), ("D", "D")) and isinstance(op, (ast.Eq, ast.NotEq)):
+        return "invariant"
+    if pair == ("G", "G"):
+        return "antisymmetric"
     if pair == ("S", "S"):
         return "antisymmetric" if not isinstance(op, (ast.Eq, ast.NotEq)) else "invariant"
     if group == "negation" and pair in NEG_EXTRA:
@@ -215,6 +224,7 @@ def run(ctx):
     ctx.attempt(_r2_nan)
     ctx.attempt(_r3_labels)
     ctx.attempt(_r4_positions)
+    ctx.attempt(lambda c: sign_tests_exact(c, "R-C03-5"))
 
 
 def _r4_positions(ctx):
@@ -282,6 +292,10 @@ def _type_function(ctx, fi, body, typer, group, what, skip=()):
         l, r = typer.t(c.left), typer.t(c.comparators[0])
         k = classify(l, r, c.ops[0], group)
         if k == "invariant":
+            if "DD" in (l, r):
+                if not hasattr(ctx, "raw_products"):
+                    ctx.raw_products = []
+                ctx.raw_products.append((fi, s, c, what))
             if (l, r) not in (("I", "I"), ("I", "Z"), ("Z", "I"), ("I", "C"), ("C", "I")):
                 n += 1
                 ctx.holds(fi, s, "%s: %s compares %s with %s: invariant under %s" % (what, norm_text(c), l, r, group))
@@ -295,9 +309,83 @@ def _type_function(ctx, fi, body, typer, group, what, skip=()):
             ctx.violated(fi, s, "%s: comparison %s relates %s with %s; that is not invariant under %s of the signal, so the "
                          "detected cycles would change with the transformation" %
                          (what, norm_text(c), l, r, "positive affine maps and negation" if group == "affine" else "negation"))
+    # sign-dependent comparisons that occur as a mirror-complete combination ((a > 0) & (b < 0)) | ((a < 0) & (b > 0)) are
+    # invariant as a whole: decided by evaluating the boolean expression over all sign patterns of its operands and their mirror
+    if anti:
+        by_stmt = {}
+        for s_, c_ in anti:
+            by_stmt.setdefault(id(s_), (s_, []))[1].append(c_)
+        anti = []
+        for s_, cs in by_stmt.values():
+            root = getattr(s_, "test", None) if isinstance(s_, (ast.If, ast.While)) else getattr(s_, "value", None)
+            if root is not None and len(cs) > 1 and _negation_invariant(root, cs, typer):
+                n += 1
+                ctx.holds(fi, s_, "%s: %s is a mirror-complete combination of sign tests: invariant under negation" %
+                          (what, norm_text(root)[:80]))
+            else:
+                anti.extend((s_, c_) for c_ in cs)
     if unknown:
         raise AnalysisError(unknown)
     return anti, n
+
+
+def _negation_invariant(root, comps, typer):
+    """root: boolean expression over comparisons `x <op> 0` (x a difference / sign / sample-pair) combined with & | ~ and or
+    not np.logical_*; True if its value is the same for every pattern of signs of the operands and for the mirrored pattern"""
+    import itertools
+    ops = {}
+    for c in comps:
+        l, r = c.left, c.comparators[0]
+        lt, rt = typer.t(l), typer.t(r)
+        if rt == "Z":
+            ops[id(c)] = (norm_text(l), type(c.ops[0]), False)
+        elif lt == "Z":
+            ops[id(c)] = (norm_text(r), type(c.ops[0]), True)
+        else:
+            return False
+    names = sorted({v[0] for v in ops.values()})
+    if len(names) > 4:
+        return False
+
+    def cmp(op, a, b):
+        return {ast.Lt: a < b, ast.LtE: a <= b, ast.Gt: a > b, ast.GtE: a >= b, ast.Eq: a == b, ast.NotEq: a != b}[op]
+
+    def ev(e, val):
+        if isinstance(e, ast.Compare) and id(e) in ops:
+            nm, op, flipped = ops[id(e)]
+            return cmp(op, 0, val[nm]) if flipped else cmp(op, val[nm], 0)
+        if isinstance(e, ast.BinOp) and isinstance(e.op, (ast.BitAnd, ast.BitOr)):
+            a, b = ev(e.left, val), ev(e.right, val)
+            return None if a is None or b is None else ((a and b) if isinstance(e.op, ast.BitAnd) else (a or b))
+        if isinstance(e, ast.BoolOp):
+            vs = [ev(x, val) for x in e.values]
+            return None if any(v is None for v in vs) else (all(vs) if isinstance(e.op, ast.And) else any(vs))
+        if isinstance(e, ast.UnaryOp) and isinstance(e.op, (ast.Invert, ast.Not)):
+            a = ev(e.operand, val)
+            return None if a is None else not a
+        if isinstance(e, ast.Call) and call_name(e) in ("np.logical_and", "np.logical_or") and len(e.args) == 2:
+            a, b = ev(e.args[0], val), ev(e.args[1], val)
+            return None if a is None or b is None else ((a and b) if call_name(e).endswith("and") else (a or b))
+        if isinstance(e, ast.Call) and call_name(e) == "np.logical_not" and len(e.args) == 1:
+            a = ev(e.args[0], val)
+            return None if a is None else not a
+        if isinstance(e, ast.Call) and call_name(e) in ("np.array", "np.asarray") and e.args:
+            return ev(e.args[0], val)
+        return None
+    # the outermost boolean sub-expression that contains all the comparisons (the statement may use the mask further)
+    want = {id(c) for c in comps}
+    zero = {k: 0 for k in names}
+    cands = [x for x in ast.walk(root) if want <= {id(y) for y in ast.walk(x)} and ev(x, zero) is not None]
+    if not cands:
+        return False
+    root = cands[0]
+    for pattern in itertools.product((-1, 0, 1), repeat=len(names)):
+        val = dict(zip(names, pattern))
+        a = ev(root, val)
+        b = ev(root, {k: -v for k, v in val.items()})
+        if a is None or b is None or a != b:
+            return False
+    return True
 
 
 MIRROR = {ast.Gt: ast.Lt, ast.Lt: ast.Gt, ast.GtE: ast.LtE, ast.LtE: ast.GtE}
@@ -308,6 +396,41 @@ def _r1_typing(ctx):
     ctx.rule("R-C03-1", floor=12, what="every data-dependent comparison is invariant under the property's group; outputs covariant; front guards are a mirror pair")
     type_find_turns(ctx)
     _r1_rest(ctx)
+
+
+def sign_tests_exact(ctx, rule):
+    """A reversal is a change of the SIGN of the first differences.  Deciding it with `d1 * d2 < 0` is exact only in real
+    arithmetic: the product of two differences below ~1e-162 underflows to (minus) zero and the reversal disappears (and for
+    integer samples the product can overflow).  The property holds for every finite signal and every positive scale, so the
+    test has to be made on the signs (np.sign(d1) * np.sign(d2) < 0, or two comparisons).  Evaluated on the typed comparisons
+    of find_turns and its helpers (type DD = product of two raw differences, GG = product of two signs)."""
+    ctx.rule(rule, floor=1, what="reversal tests use the signs of the differences, not the sign of their product (underflow)")
+    class _Quiet:                       # the typing pass again, recording nothing but the raw products
+        prog = ctx.prog
+
+        def __init__(self):
+            self.raw_products = []
+
+        def holds(self, *a, **k):
+            pass
+
+        def violated(self, *a, **k):
+            pass
+    q = _Quiet()
+    type_find_turns(q)
+    seen = set()
+    n = 0
+    for fi, s, c, what in q.raw_products:
+        if id(c) in seen:
+            continue
+        seen.add(id(c))
+        n += 1
+        ctx.violated(fi, s, "%s: %s decides a reversal by the sign of a product of two differences; for differences below about "
+                     "1e-162 the product underflows to zero and the turning point is lost (all turning points of a signal scaled "
+                     "by 1e-165 are)" % (what, norm_text(c)), text="raw product " + norm_text(c))
+    ft = ctx.prog.func(GEN + ":find_turns")
+    if not n:
+        ctx.holds(ft, ft.node, "find_turns and its helpers compare no product of raw differences with zero")
 
 
 def type_find_turns(ctx):
@@ -334,8 +457,6 @@ def type_find_turns(ctx):
     for nf in nested:
         rets = [s_ for s_ in walk_stmts(nf.body) if isinstance(s_, ast.Return) and s_.value is not None]
         t2 = Typer(sample_names=("samples",))
-        if nf.name == "plateau_turns" or "diffs" in [a.arg for a in nf.args.args]:
-            t2.env["diffs"] = "D"
         if "index" in [a.arg for a in nf.args.args]:
             t2.env["index"] = "I"
             t2.env["nans"] = "I"
@@ -345,6 +466,8 @@ def type_find_turns(ctx):
                     tv = pre.t(v_)
                     if tv is not None and a_.arg not in t2.env:
                         t2.env[a_.arg] = tv
+        if "diffs" in [a.arg for a in nf.args.args] and "diffs" not in t2.env:
+            t2.env["diffs"] = "D"                  # (call site not typed: the name says what it is)
         fi_n = prog.functions.get(ft.key + "." + nf.name) or outer.get(nf.name)
         anti, n = _type_function(ctx, fi_n or ft, nf.body, t2, "affine", "find_turns." + nf.name)
         rt = {t2.t(r_.value) for r_ in rets if not isinstance(r_.value, ast.Tuple)}
@@ -1055,6 +1178,26 @@ FP = "src/pylife/stress/rainflow/fourpoint.py"
 def variants():
     out = []
 
+    def raw_product(tree):
+        f = find_func(tree, "find_turns")
+        for st in f.body:
+            if isinstance(st, ast.Assign) and isinstance(st.value, ast.Call) and call_name(st.value) == "np.sign" and \
+                    isinstance(st.targets[0], ast.Name) and st.targets[0].id == "diffs":
+                st.value = st.value.args[0]
+                return True
+        return False
+    out.append(witness("reversal test on the product of the raw differences (underflow)", "src/pylife/stress/rainflow/general.py",
+                       raw_product, "R-C03-5"))
+
+    def two_comparisons(tree):
+        f = find_func(tree, "find_turns")
+        for st in f.body:
+            if isinstance(st, ast.Assign) and isinstance(st.targets[0], ast.Name) and st.targets[0].id == "peak_turns":
+                st.value = parse_expr("((diffs[:-1] > 0) & (diffs[1:] < 0)) | ((diffs[:-1] < 0) & (diffs[1:] > 0))")
+                return True
+        return False
+    out.append(twin("peak test written as sign comparisons", "src/pylife/stress/rainflow/general.py", two_comparisons))
+
     def sort_series(tree):
         f = find_func(tree, "FourPointDetector.process")
         i = 1 if isinstance(f.body[0], ast.Expr) and isinstance(f.body[0].value, ast.Constant) else 0
@@ -1086,11 +1229,14 @@ def variants():
                        no_concat_when_no_tail, "R-C03-3"))
 
     def isclose_plateau(tree):
+        # (on the signs of the differences np.isclose(sign, 0) would be exact: the tolerance is put on the differences themselves)
         f = find_func(tree, "find_turns")
-        for n in ast.walk(f):
-            if isinstance(n, ast.Compare) and isinstance(n.ops[0], ast.Eq) and isinstance(n.comparators[0], ast.Constant) \
-                    and n.comparators[0].value == 0:
-                return replace_node(n, parse_expr("np.isclose(%s, 0.0)" % ast.unparse(n.left)))
+        for st in f.body:
+            if isinstance(st, ast.Assign) and isinstance(st.value, ast.Call) and call_name(st.value) == "np.sign" and \
+                    isinstance(st.targets[0], ast.Name) and st.targets[0].id == "diffs":
+                d = ast.unparse(st.value.args[0])
+                st.value = parse_expr("np.sign(np.where(np.isclose(%s, 0.0), 0.0, %s))" % (d, d))
+                return True
         return False
     out.append(witness("plateau detection with np.isclose", "src/pylife/stress/rainflow/general.py", isclose_plateau, "R-C03-1"))
 
